@@ -76,6 +76,17 @@ SPEC = {
         "exc_alias": {},
         "zconsts": {},
     },
+    # module-level functions of rtcmhelpers (no class, no self): the attribute-name helpers of C19
+    "helpers": {
+        "file": "rtcmhelpers.py", "cls": None,
+        "methods": ["att2idx", "att2name", "datadesc"],
+        "static": ["att2idx", "att2name", "datadesc"],
+        "functions": True,
+        "ext": {},
+        "tables": {"RTCM_DATA_FIELDS": "pyrtcm.rtcmtypes_core"},
+        "exc_alias": {},
+        "zconsts": {},
+    },
     # the whole constructor path of RTCMMessage incl. the recursive table-driven decoder: every method may call every method
     # (PyO.rlink, with a call-depth budget); emitted under its own names beside the non-recursive program above
     "msgdec": {
@@ -189,6 +200,18 @@ class Ctx:
             except Unsupported:
                 pass
         self.builtins = [b for b in BUILTINS if self.binds.get(b, 0) == 0 and b not in self.glob]
+        if spec.get("functions"):
+            # module-level functions: each bound exactly once, by a top-level def without decorators; nothing else binds the name
+            self.setattr_mode = False
+            self.reserved = []
+            self.defs = {}
+            for n in self.tree.body:
+                if isinstance(n, ast.FunctionDef):
+                    self.defs[n.name] = n if (self.binds.get(n.name, 0) == 1 and n.name not in self.glob and not n.decorator_list) else None
+            for n in ast.walk(self.tree):
+                if isinstance(n, ast.Call) and isinstance(n.func, ast.Name) and n.func.id in ("exec", "eval", "globals", "vars"):
+                    raise Unsupported("%s: call of %s (line %d)" % (self.path, n.func.id, n.lineno))
+            return
         # ---- the class
         cname = spec["cls"]
         classes = [n for n in self.tree.body if isinstance(n, ast.ClassDef) and n.name == cname]
@@ -240,12 +263,12 @@ class Meth:
         self.node = node
         self.static = name in ctx.spec["static"]
         self.isprop = name in ctx.spec.get("props", [])
-        want = ["staticmethod"] if self.static else (["property"] if self.isprop else [])
+        want = ["staticmethod"] if (self.static and not ctx.spec.get("functions")) else (["property"] if self.isprop else [])
         if self.isprop and "property" not in ctx.builtins:
             raise Unsupported("%s: property rebound" % name)
         if [ast.dump(d) for d in node.decorator_list] != [ast.dump(ast.Name(id=d, ctx=ast.Load())) for d in want]:
             raise Unsupported("%s: decorators" % name)
-        if self.static and "staticmethod" not in ctx.builtins:
+        if self.static and not ctx.spec.get("functions") and "staticmethod" not in ctx.builtins:
             raise Unsupported("%s: staticmethod rebound" % name)
         a = node.args
         if a.posonlyargs or a.kwonlyargs or a.vararg or a.kwarg:
@@ -280,11 +303,15 @@ class Meth:
         for s in body:
             for n in ast.walk(s):
                 if isinstance(n, (ast.Global, ast.Nonlocal, ast.Lambda, ast.FunctionDef, ast.AsyncFunctionDef, ast.ClassDef, ast.NamedExpr,
-                                  ast.ListComp, ast.GeneratorExp, ast.SetComp, ast.DictComp, ast.With, ast.AsyncWith, ast.Delete,
+                                  ast.ListComp, ast.SetComp, ast.DictComp, ast.With, ast.AsyncWith, ast.Delete,
                                   ast.Import, ast.ImportFrom, ast.Yield, ast.YieldFrom, ast.Await, ast.Match, ast.AsyncFor,
                                   ast.Starred, ast.Assert, ast.AnnAssign)):
                     raise Unsupported("%s: %s (line %d)" % (self.name, type(n).__name__, getattr(n, "lineno", 0)))
+                if isinstance(n, ast.GeneratorExp) and not self.ctx.spec.get("functions"):
+                    raise Unsupported("%s: generator expression (line %d)" % (self.name, getattr(n, "lineno", 0)))
                 if isinstance(n, ast.Name) and isinstance(n.ctx, ast.Store) and n.id not in self.params and n.id not in self.locals:
+                    if any(isinstance(g, ast.GeneratorExp) and any(c.target is n for c in g.generators) for g in ast.walk(s)):
+                        continue          # the target of a comprehension lives in the comprehension's own scope
                     if n.id == self.selfname:
                         raise Unsupported("%s: self rebound" % self.name)
                     self.locals.append(n.id)
@@ -363,6 +390,11 @@ class Meth:
             for v in reversed(e.values[:-1]):
                 out = "(%s %s %s)" % (con, self.expr(v), out)
             return out
+        if (isinstance(e, ast.Compare) and len(e.ops) == 1 and isinstance(e.ops[0], (ast.In, ast.NotIn)) and isinstance(e.comparators[0], ast.Name)
+                and e.comparators[0].id in self.ctx.tables and not self.is_local(e.comparators[0].id)):
+            # k in TABLE / k not in TABLE: a question to the environment
+            q = "(ECallX {| c_name := %s; c_kw := [] |} [%s])" % (cstr(e.comparators[0].id + ".__contains__"), self.expr(e.left))
+            return q if isinstance(e.ops[0], ast.In) else "(EUn UNot %s)" % q
         if isinstance(e, ast.Compare):
             rest = []
             for o, c in zip(e.ops, e.comparators):
@@ -450,6 +482,25 @@ class Meth:
                     return "(EExcNew %s %s)" % (cstr(self.ctx.exc[f.id]), self.exprs(e.args))
                 finally:
                     self._text_ctx = False
+            if (f.id == "tuple" and "tuple" in self.ctx.builtins and len(e.args) == 1 and not kws and isinstance(e.args[0], ast.GeneratorExp)):
+                g = e.args[0]
+                if (len(g.generators) == 1 and not g.generators[0].ifs and not g.generators[0].is_async and isinstance(g.generators[0].target, ast.Name)
+                        and isinstance(g.generators[0].iter, ast.Call) and isinstance(g.generators[0].iter.func, ast.Name)
+                        and g.generators[0].iter.func.id == "range" and "range" in self.ctx.builtins and not self.is_local("range")
+                        and len(g.generators[0].iter.args) == 2 and not g.generators[0].iter.keywords):
+                    x = g.generators[0].target.id
+                    lo, hi = (self.expr(a) for a in g.generators[0].iter.args)      # evaluated in the enclosing scope
+                    saved = list(self.locals)
+                    if x not in self.locals and x not in self.params:
+                        self.locals.append(x)                                       # only so that the body may name it
+                        body = self.expr(g.elt)
+                        self.locals = saved
+                    else:
+                        body = self.expr(g.elt)
+                    return "(ETupleRange %s %s %s %s)" % (cstr(x), lo, hi, body)
+                raise U("generator expression")
+            if f.id == "int" and "int" in self.ctx.builtins and len(e.args) == 1 and not kws and self.ctx.spec.get("functions"):
+                return "(ECallB BIntPy [%s])" % self.expr(e.args[0])
             if f.id == "chr" and "chr" in self.ctx.builtins and len(e.args) == 1 and not kws:
                 return "(ECallB BChr [%s])" % self.expr(e.args[0])
             if f.id == "int" and "int" in self.ctx.builtins and len(e.args) == 1 and not kws and self.ctx.spec.get("recursive"):
@@ -513,7 +564,11 @@ class Meth:
                     and isinstance(f.value, ast.Call) and isinstance(f.value.func, ast.Name) and f.value.func.id == "bin" and "bin" in self.ctx.builtins
                     and not self.is_local("bin") and len(f.value.args) == 1 and not f.value.keywords):
                 return "(ECallB BPopcount [%s])" % self.expr(f.value.args[0])
-            if self.ctx.spec.get("recursive"):
+            if (self.ctx.spec.get("functions") and f.attr == "rsplit" and len(e.args) == 2 and not kws and isinstance(e.args[0], ast.Constant)
+                    and isinstance(e.args[0].value, str) and len(e.args[0].value) == 1 and isinstance(e.args[1], ast.Constant) and e.args[1].value == 1
+                    and not isinstance(e.args[1].value, bool)):
+                return "(ECallB BRsplit1 [%s; EStr %s])" % (self.expr(f.value), cstr(e.args[0].value))
+            if self.ctx.spec.get("recursive") or self.ctx.spec.get("functions"):
                 # x.split("<one character>")
                 if (f.attr == "split" and len(e.args) == 1 and not kws and isinstance(e.args[0], ast.Constant) and isinstance(e.args[0].value, str)
                         and len(e.args[0].value) == 1):
@@ -821,7 +876,7 @@ def translate(repo, key, out):
 
 def main():
     repo = os.environ.get("VERIF_REPO", "/repo")
-    which = sys.argv[2:] or ["sock", "reader", "msg", "msgdec"]       # the module is named after the file: SrcOSock.v / SrcOReader.v / SrcO.v (both)
+    which = sys.argv[2:] or ["sock", "reader", "msg", "msgdec", "helpers"]       # the module is named after the file: SrcOSock.v / SrcOReader.v / SrcO.v (both)
     out = ["(* GENERATED by tools/gen_src2.py from %s/src/pyrtcm/{socketwrapper,rtcmreader,rtcmtypes_core,exceptions}.py -- do not edit *)" % repo,
            "From Coq Require Import ZArith List String.", "From PyRtcm Require Import Src.PyO.",
            "Import ListNotations.", "Open Scope string_scope.", "Open Scope Z_scope.", ""]
